@@ -2,46 +2,57 @@
 from __future__ import annotations
 
 import itertools
-from fractions import Fraction
 
 from ..model import AnalysisError
 from ..symex import Symex, Obj, ClassRef
-from ..terms import T, sym, strip, expand_products, is_num, show, subterms, args_of
+from ..terms import T, sym, strip, expand_products, is_num, show
 
 EXPLANATION = (
     "Every function is evaluated abstractly (sa.symex) in small worlds: an expression is a list of abstract terms whose "
-    "values live in a tiny exact algebra (products of (anti)symmetric/plain tensors over index labels, integer "
-    "coefficients); `permute` and every `X is S.Zero` / `is_number` test of the code are decided by that algebra (the "
-    "oracle of the evaluator), `simplify`, `factor_eri_parts`, `factor_denom`, `.expand()`, `.sympy`, `Expr(..)` are "
-    "value preserving, index generators return the requested labels. The verdicts compare what the function returns "
-    "with the value it stands for. R10a (sign pairing): in worlds where P X = +X' under a requested factor -1 (and "
-    "P X = -X' under +1) nothing may be merged or mapped; Term.symmetry reports exactly the factor chi(P) of the "
-    "world (stabiliser group with character) for every permutation it returns; denom_eri_sym returns factor*(+1/-1/None) "
-    "for P D = D / -D / other and omits permutations that annihilate D; _compare_remainder returns +1/-1/None for "
-    "equal / negated / incompatible remainders. R10b (lossless decompositions): by_delta_types, by_delta_indices, "
-    "by_tensor_block, by_tensor_target_block, by_tensor_target_indices return every term exactly once with coefficient 1 in "
-    "the part whose key is the key computed from the documented rule (labels with exponent multiplicity, sorted, "
-    "'none'/'no_<name>' defaults); filter_tensor keeps exactly the terms of the documented low/medium/high tables; "
-    "exploit_perm_sym: re-expanding the returned parts, sum_parts sum_t (t + sum_(P,f) f P t), gives the value of the "
-    "input in every world (Klein four group with two permutations reaching the same term, four terms ia/ja/ib/jb, "
-    "three-cycles, self-(anti)symmetric and annihilated terms, unique terms, terms with denominators, numbers), one "
-    "term is kept per orbit, and every recorded (P, f) belongs to the symmetry of the probe tensor. R10c (declared "
-    "symmetry): the probe tensor of exploit_perm_sym has the requested class, the requested upper/lower split with "
-    "the requested spins and the bra-ket symmetry (0 without explicit targets), inconsistent requests are refused; "
-    "LazyTermMap.evaluate probes a tensor carrying all target indices in one slot; Obj.symmetry is the target "
-    "symmetry of an expression whose target indices are the chosen index set; Term.symmetry returns exactly the "
-    "non-trivial elements of the stabiliser that move only the selected indices (all / contracted / target) within one "
-    "(space, spin) class. R10d: probe_symmetry returns {i: j | P t_i = f t_j, i != j, t_i not itself f-symmetric, P valid} "
-    "of the world (three-cycle worlds distinguish a map from its inverse), stores it under (permutations, factor) and "
-    "refuses non-target indices; Permutation(p, q) = Permutation(q, p) = canonical pair; PermutationProduct keeps the "
-    "order of permutations inside a group of linked spaces and orders the groups canonically.")
+    "values live in a tiny exact algebra (products of antisymmetric/symmetric/plain tensors over index labels with integer "
+    "coefficients; transpositions applied one after another); every `X is S.Zero` / `X == 0` / `is_number` test of the "
+    "analysed code is decided by that algebra (oracle of the evaluator), `permute` stays symbolic and is interpreted by "
+    "the world, `simplify`, `factor_eri_parts`, `factor_denom`, `.expand()`, `.copy()`, `.factor()`, `.sympy`, `Expr(..)` "
+    "are value preserving, index generators return the requested labels. The verdicts compare what a function returns "
+    "with the value it stands for; local names, statement layout, helper functions, loop forms and the spelling of "
+    "calls do not enter. R10a (sign pairing): in worlds where P X = +X' under a requested factor -1 (P X = -X' under "
+    "+1) exploit_perm_sym must not merge and probe_symmetry must not map anything, and a term that is itself "
+    "f-symmetric needs no partner; Term.symmetry reports for every permutation it returns the factor with which the "
+    "world maps the term onto itself; denom_eri_sym returns factor*(+1 | -1) | None for P D = D | -D | another bracket and "
+    "omits permutations that annihilate D, returns the symmetry of the remainder for a numeric denominator and "
+    "forwards the restriction when it determines that symmetry itself; _compare_remainder returns +1 / -1 / None for "
+    "equal / negated / incompatible remainders (also when the remainders differ in names of contracted indices). R10b "
+    "(lossless decompositions): by_delta_types, by_delta_indices, by_tensor_block, by_tensor_target_block and "
+    "by_tensor_target_indices return every term exactly once with coefficient 1 in the part whose key is the key of the "
+    "documented rule (labels with exponent multiplicity, sorted, 'none' / 'no_<name>' defaults, spin suffix); "
+    "filter_tensor keeps exactly the terms of the documented low / medium / high tables (exponent multiplicity, ignored "
+    "amplitudes); exploit_perm_sym: re-expanding the returned parts, sum over parts and their terms t of "
+    "(t + sum_(P,f) f P t), gives the value of the input in every world (Klein four group where two permutations reach "
+    "the same term, the four terms ia/ja/ib/jb, one deviating prefactor, three-cycles, self-(anti)symmetric and "
+    "annihilated terms, unique terms, terms with denominators, numbers) and one term is kept per orbit. R10c (declared "
+    "symmetry): every (P, f) recorded by exploit_perm_sym is an item of the symmetry of its single probe tensor; that "
+    "tensor has the requested class, the requested upper/lower split with the requested spins and the bra-ket "
+    "symmetry (0 without explicit targets); inconsistent requests (bra-ket symmetry without separator, spin "
+    "incompatible with the split, foreign target indices or spins, terms with different targets) are refused; "
+    "LazyTermMap.evaluate probes the (anti)symmetric tensor that carries all target indices in one slot; Obj.symmetry "
+    "is the only_target symmetry of an expression of the object whose target indices are the chosen index set; "
+    "Term.symmetry returns exactly the non-trivial elements of the stabiliser of the term that move only the selected "
+    "indices (all / contracted / target) inside one (space, spin) class - nothing outside, nothing missing. R10d: "
+    "probe_symmetry returns {i: j | P t_i = f t_j, i != j, P valid on t_i, t_i not itself f-symmetric} of the world "
+    "(three-cycle worlds distinguish a map from its inverse), stores it under (permutations, factor) and refuses "
+    "non-target indices and factors other than +-1; Permutation(p, q) = Permutation(q, p) = the canonically ordered "
+    "pair; PermutationProduct keeps the order of the permutations inside a group of linked (space, spin) classes "
+    "and orders independent groups canonically (compared with a union-find reference on 15 products).")
 ASSUMPTIONS = [
-    "bounded: the worlds listed in the rule module (at most 4 terms, at most 5 index labels) are evaluated",
+    "bounded: only the worlds listed in the rule module (at most 5 terms, at most 8 index labels) are evaluated",
     "simplify / factor_eri_parts / factor_denom are value preserving and simplify is a complete zero test (C07)",
-    "the prefilter keys of exploit_perm_sym / _prescan_terms (object descriptions) never separate terms related by a "
-    "permutation of target indices: related terms of a world share the description",
-    "Term.permute applies the transpositions one after another (checked by C09)",
+    "the prefilter keys of exploit_perm_sym / LazyTermMap._prescan_terms (object descriptions) never separate terms "
+    "that are related by a permutation of target indices: related terms of a world share the description",
+    "Term.permute applies the transpositions one after another (C09)",
+    "the guards that skip annihilating permutations in exploit_perm_sym / probe_symmetry are not required: without "
+    "them the returned value is the same (0 never matches a non-zero term)",
     "LazyTermMap.evaluate: that every symmetry item is looked up through __getitem__ is not decided",
+    "LazyTermMap.__getitem__ (cache lookup through re-ordered / inverted permutation products) is not checked",
 ]
 
 ZERO = sym("S.Zero")
@@ -201,6 +212,11 @@ def make_oracle(world_of):
                     for x, y in ((a, b), (b, a)):
                         if isinstance(x, T) and x.op == "call" and x.args[0] == "len" and isinstance(y, int):
                             return max(1, len(w.lin(x.args[1][0], syntactic=True))) == y
+                if isinstance(a, T) and isinstance(b, T):
+                    try:    # X == -Y spelled without the zero
+                        return w.lin(a) == w.lin(b)
+                    except Uninterpreted:
+                        return None
             if atom.op == "attr" and atom.args[1] == "is_number":
                 return set(w.lin(atom.args[0])) <= {"1"}
             if atom.op == "attr" and atom.args[1] == "is_zero":
